@@ -14,6 +14,7 @@
 
 import logging
 from functools import partial
+from collections.abc import Mapping
 from typing import Any, List, Optional, Sequence, Tuple, Type, Union
 
 import torch
@@ -25,8 +26,32 @@ from torch.utils.data import BatchSampler, DataLoader, Dataset, IterableDataset,
 from torch.utils.data._utils.collate import default_collate
 from torch.utils.data.dataloader import _collate_fn_t
 
-
 logger = logging.getLogger(__name__)
+
+
+def empty_like_batch(batch: Any) -> Any:
+    """
+    The batch of length zero that has the structure of ``batch``: tensors are cut to
+    zero length along the batch dimension, mappings and sequences are followed, a
+    sequence of per-sample strings becomes an empty list.
+
+    Args:
+        batch: a collated batch
+
+    Returns:
+        Empty batch of the same structure, shapes and dtypes
+    """
+    if torch.is_tensor(batch):
+        return batch[:0]
+    if isinstance(batch, Mapping):
+        return {key: empty_like_batch(value) for key, value in batch.items()}
+    if isinstance(batch, tuple) and hasattr(batch, "_fields"):  # namedtuple
+        return type(batch)(*(empty_like_batch(value) for value in batch))
+    if isinstance(batch, (list, tuple)):
+        if all(isinstance(value, (str, bytes)) for value in batch):
+            return type(batch)()
+        return type(batch)(empty_like_batch(value) for value in batch)
+    return batch
 
 
 def collate(
@@ -35,6 +60,7 @@ def collate(
     collate_fn: Optional[_collate_fn_t],
     sample_empty_shapes: Sequence[Tuple],
     dtypes: Sequence[Union[torch.dtype, Type]],
+    empty_batch: Any = None,
 ):
     """
     Wraps `collate_fn` to handle empty batches.
@@ -49,6 +75,8 @@ def collate(
         collate_fn: Collame method to be wrapped
         sample_empty_shapes: Sample tensors with the expected shape
         dtypes: Expected dtypes
+        empty_batch: what ``collate_fn`` would return for a batch of length zero;
+            takes precedence over ``sample_empty_shapes`` and ``dtypes``
 
     Returns:
         Batch tensor(s)
@@ -56,6 +84,8 @@ def collate(
 
     if len(batch) > 0:
         return collate_fn(batch)
+    elif empty_batch is not None:
+        return empty_like_batch(empty_batch)
     else:
         return [
             torch.zeros(shape, dtype=dtype)
@@ -68,6 +98,7 @@ def wrap_collate_with_empty(
     collate_fn: Optional[_collate_fn_t],
     sample_empty_shapes: Sequence[Tuple],
     dtypes: Sequence[Union[torch.dtype, Type]],
+    empty_batch: Any = None,
 ):
     """
     Wraps given collate function to handle empty batches.
@@ -88,6 +119,7 @@ def wrap_collate_with_empty(
         collate_fn=collate_fn,
         sample_empty_shapes=sample_empty_shapes,
         dtypes=dtypes,
+        empty_batch=empty_batch,
     )
 
 
@@ -191,10 +223,12 @@ class DPDataLoader(DataLoader):
                 generator=generator,
                 steps=steps,
             )
-        sample_empty_shapes = [(0, *shape_safe(x)) for x in dataset[0]]
-        dtypes = [dtype_safe(x) for x in dataset[0]]
         if collate_fn is None:
             collate_fn = default_collate
+        # the empty batch has the structure, shapes and dtypes of a collated batch of
+        # one sample: this also covers samples that are a single tensor, a mapping or
+        # a nested structure, which cannot be described by a flat list of shapes
+        empty_batch = empty_like_batch(collate_fn([dataset[0]]))
 
         if drop_last:
             logger.warning(
@@ -206,8 +240,9 @@ class DPDataLoader(DataLoader):
             batch_sampler=batch_sampler,
             collate_fn=wrap_collate_with_empty(
                 collate_fn=collate_fn,
-                sample_empty_shapes=sample_empty_shapes,
-                dtypes=dtypes,
+                sample_empty_shapes=[],
+                dtypes=[],
+                empty_batch=empty_batch,
             ),
             generator=generator,
             **kwargs,
